@@ -201,6 +201,13 @@ Proof.
   rewrite firstn_app, firstn_all, Nat.sub_diag. cbn [firstn]. apply app_nil_r.
 Qed.
 
+(** where the records of a list sit when their plain encodings are written one after the other from offset [o] *)
+Fixpoint place (o : nat) (lx : list (rec_view * rd_view)) : list (rec_view * rd_view) :=
+  match lx with
+  | [] => []
+  | rx :: l => (rv_at (fst rx) (snd rx) o, snd rx) :: place (o + length (plain_record rx)) l
+  end.
+
 (** the record [r] with data reading [x] sits in [p] as its own pointer-free encoding *)
 Definition plain_at (p : bytes) (r : rec_view) (x : rd_view) : Prop :=
   rv_name_end r = rv_off r + length (wire_of_labels (rv_labels r)) /\
@@ -421,7 +428,7 @@ Section Recs.
         rrs_wf q sec seen (length pre) n e seen' /\
         exists lx', records_at q (length pre) (map fst lx') e /\ Forall (rd_ok q) lx' /\
                     map plain_record lx' = map plain_record lx /\ Forall2 same_rec lx lx' /\
-                    Forall (fun rx => plain_at q (fst rx) (snd rx)) lx'.
+                    Forall (fun rx => plain_at q (fst rx) (snd rx)) lx' /\ lx' = place (length pre) lx.
   Proof.
     induction 1 as [seen off|seen off off1 seen1 n off' seen' Hrr Hrest IH].
     - exists []. cbn [map concat length]. split; [constructor|]. split; [reflexivity|]. split; [constructor|].
@@ -434,7 +441,7 @@ Section Recs.
       split; [constructor; [exact Hx|exact Hxs]|]. split; [apply bytes_ok_app; assumption|].
       intros pre post. cbv zeta.
       destruct (Hctx pre (concat (map plain_record lx) ++ post)) as (W1 & R1 & X1).
-      destruct (Hctxs (pre ++ plain_record (r, x)) post) as (W2 & lx' & R2 & X2 & E2 & F2 & P2).
+      destruct (Hctxs (pre ++ plain_record (r, x)) post) as (W2 & lx' & R2 & X2 & E2 & F2 & P2 & Epl).
       assert (Eq1 : pre ++ (plain_record (r, x) ++ concat (map plain_record lx)) ++ post =
                     pre ++ plain_record (r, x) ++ concat (map plain_record lx) ++ post) by (rewrite <- !app_assoc; reflexivity).
       assert (Eq2 : (pre ++ plain_record (r, x)) ++ concat (map plain_record lx) ++ post =
@@ -448,7 +455,8 @@ Section Recs.
       split; [change (length pre) with (rv_off (rv_at r x (length pre))) at 1; econstructor; eauto|].
       split; [constructor; [exact X1|exact X2]|]. split; [cbn [map]; rewrite E2; reflexivity|].
       split; [constructor; [unfold same_rec; cbn; auto|exact F2]|].
-      constructor; [|exact P2]. cbn [fst snd]. apply plain_at_placed.
+      split; [constructor; [|exact P2]; cbn [fst snd]; apply plain_at_placed|].
+      cbn [place fst snd]. rewrite Epl, app_length. reflexivity.
   Qed.
 End Recs.
 
@@ -537,7 +545,11 @@ Theorem plain_packet : forall p, bytes_ok p -> wf_packet p ->
       map plain_record lxa' = map plain_record lxa /\ map plain_record lxn' = map plain_record lxn /\
       map plain_record lxr' = map plain_record lxr /\
       Forall2 same_rec (lxa ++ lxn ++ lxr) (lxa' ++ lxn' ++ lxr') /\
-      Forall (fun rx => plain_at q (fst rx) (snd rx)) (lxa' ++ lxn' ++ lxr').
+      Forall (fun rx => plain_at q (fst rx) (snd rx)) (lxa' ++ lxn' ++ lxr') /\
+      (let o1 := 12 + length (wire_of_labels qls) + 4 in
+       let o2 := o1 + length (concat (map plain_record lxa)) in
+       let o3 := o2 + length (concat (map plain_record lxn)) in
+       lxa' = place o1 lxa /\ lxn' = place o2 lxn /\ lxr' = place o3 lxr).
 Proof.
   intros p Hb (w & an & ns & ar & qe & qclass & e1 & s1 & e2 & s2 & s3 & Hw & Hqd & Han & Hns & Har & (qls & Hqn) & Hq4 & Hqc & Hcls & Hgate & Hc1 & Hc2 & Hc3).
   subst qclass.
@@ -564,9 +576,9 @@ Proof.
   pose proof (wire_length_le _ _ _ _ Hqn) as Hwl. fold W in Hwl.
   pose proof (u16_lt _ _ _ Hb Hqt) as Hqtlt.
   (* the three sections in their contexts *)
-  destruct (Hca (hdr ++ W ++ be16_bytes qt ++ be16_bytes CLASS_IN) (Nn ++ R)) as (Wa & lxa' & Ra & Xa & Ea & Fa & Pa). fold A in Wa, Ra, Xa, Pa.
-  destruct (Hcn (hdr ++ (W ++ be16_bytes qt ++ be16_bytes CLASS_IN) ++ A) R) as (Wn & lxn' & Rn & Xn & En & Fn & Pn). fold Nn in Wn, Rn, Xn, Pn.
-  destruct (Hcr (hdr ++ (W ++ be16_bytes qt ++ be16_bytes CLASS_IN) ++ A ++ Nn) []) as (Wr & lxr' & Rr & Xr & Er & Fr & Pr). fold R in Wr, Rr, Xr, Pr.
+  destruct (Hca (hdr ++ W ++ be16_bytes qt ++ be16_bytes CLASS_IN) (Nn ++ R)) as (Wa & lxa' & Ra & Xa & Ea & Fa & Pa & Ela). fold A in Wa, Ra, Xa, Pa.
+  destruct (Hcn (hdr ++ (W ++ be16_bytes qt ++ be16_bytes CLASS_IN) ++ A) R) as (Wn & lxn' & Rn & Xn & En & Fn & Pn & Eln). fold Nn in Wn, Rn, Xn, Pn.
+  destruct (Hcr (hdr ++ (W ++ be16_bytes qt ++ be16_bytes CLASS_IN) ++ A ++ Nn) []) as (Wr & lxr' & Rr & Xr & Er & Fr & Pr & Elr). fold R in Wr, Rr, Xr, Pr.
   assert (Q1 : (hdr ++ W ++ be16_bytes qt ++ be16_bytes CLASS_IN) ++ A ++ Nn ++ R = q) by (unfold q; rewrite <- !app_assoc; reflexivity).
   assert (Q2 : (hdr ++ (W ++ be16_bytes qt ++ be16_bytes CLASS_IN) ++ A) ++ Nn ++ R = q) by (unfold q; rewrite <- !app_assoc; reflexivity).
   assert (Q3 : (hdr ++ (W ++ be16_bytes qt ++ be16_bytes CLASS_IN) ++ A ++ Nn) ++ R ++ [] = q) by (unfold q; rewrite app_nil_r, <- !app_assoc; reflexivity).
@@ -575,7 +587,7 @@ Proof.
   assert (L2 : length (hdr ++ (W ++ be16_bytes qt ++ be16_bytes CLASS_IN) ++ A) = 12 + length W + 4 + length A) by (rewrite !app_length, Hlh; cbn [length be16_bytes]; lia).
   assert (L3 : length (hdr ++ (W ++ be16_bytes qt ++ be16_bytes CLASS_IN) ++ A ++ Nn) = 12 + length W + 4 + length A + length Nn) by (rewrite !app_length, Hlh; cbn [length be16_bytes]; lia).
   assert (Lq : length q = 12 + length W + 4 + length A + length Nn + length R) by (unfold q; rewrite !app_length, Hlh; cbn [length be16_bytes]; lia).
-  rewrite L1 in Wa, Ra. rewrite L2 in Wn, Rn. rewrite L3 in Wr, Rr.
+  rewrite L1 in Wa, Ra, Ela. rewrite L2 in Wn, Rn, Eln. rewrite L3 in Wr, Rr, Elr.
   replace (12 + length W + 4 + length A + length Nn + length R) with (length q) in Wr, Rr by lia.
   (* the question in q *)
   assert (Cq : cname_l q 12 qls (12 + length W)).
@@ -601,7 +613,8 @@ Proof.
     split; [exact Wa|]. split; [exact Wn|exact Wr]. }
   exists lxa', lxn', lxr'.
   split; [|split; [exact Ea|]; split; [exact En|]; split; [exact Er|]; split; [apply Forall2_app; [exact Fa|apply Forall2_app; assumption]|];
-           apply Forall_app; split; [exact Pa|apply Forall_app; split; assumption]].
+           split; [apply Forall_app; split; [exact Pa|apply Forall_app; split; assumption]|];
+           cbv zeta; fold A Nn; auto].
   constructor.
   - exists (12 + length W), (12 + length W + 4 + length A), (12 + length W + 4 + length A + length Nn).
     split; [exact Cq|]. split; [exact Tq|]. split; [exact Clq|]. split; [lia|]. split; [exact Ra|]. split; [exact Rn|exact Rr].
